@@ -47,7 +47,10 @@ pub fn jstr(s: &str) -> String {
 }
 
 fn jlist(v: &[String]) -> String {
-    format!("[{}]", v.iter().map(|s| jstr(s)).collect::<Vec<_>>().join(","))
+    format!(
+        "[{}]",
+        v.iter().map(|s| jstr(s)).collect::<Vec<_>>().join(",")
+    )
 }
 
 fn unhex(s: &str) -> String {
@@ -76,7 +79,10 @@ fn install_panic_hook() {
         } else {
             String::from("<non-string panic payload>")
         };
-        let loc = info.location().map(|l| l.file().to_string()).unwrap_or_default();
+        let loc = info
+            .location()
+            .map(|l| l.file().to_string())
+            .unwrap_or_default();
         let bt = std::backtrace::Backtrace::force_capture().to_string();
         let mut frames = vec![];
         for line in bt.lines() {
@@ -134,7 +140,11 @@ where
             };
             format!(
                 "{{{body},\"steps\":[{}],\"stage\":{stage},\"us\":{us}}}",
-                steps.iter().map(|s| s.to_string()).collect::<Vec<_>>().join(",")
+                steps
+                    .iter()
+                    .map(|s| s.to_string())
+                    .collect::<Vec<_>>()
+                    .join(",")
             )
         })
         .expect("spawn");
@@ -150,7 +160,11 @@ fn parse_files(fields: &[&str]) -> Files {
     let mut files = vec![];
     let mut i = 0;
     while i + 1 < fields.len() {
-        let path = if fields[i] == "-" { None } else { Some(PathBuf::from(unhex(fields[i]))) };
+        let path = if fields[i] == "-" {
+            None
+        } else {
+            Some(PathBuf::from(unhex(fields[i])))
+        };
         files.push((unhex(fields[i + 1]), path));
         i += 2;
     }
@@ -172,7 +186,10 @@ fn do_pipe(annotate: bool, budget: u64, srcdir: String, files: Files) -> String 
 }
 
 fn jpos(p: &Position) -> String {
-    format!("[{},{},{},{}]", p.start.line, p.start.pos, p.end.line, p.end.pos)
+    format!(
+        "[{},{},{},{}]",
+        p.start.line, p.start.pos, p.end.line, p.end.pos
+    )
 }
 
 /// The same stages as `mamba_to_python`, through the public API, keeping the structured errors.
@@ -185,8 +202,11 @@ fn do_stages(annotate: bool, files: Files) -> String {
                 Ok(ast) => asts.push(ast),
                 Err(err) => {
                     let err = err.with_source(&Some(src.clone()), path);
-                    let causes: Vec<String> =
-                        err.causes.iter().map(|c| format!("[{},{}]", jpos(&c.pos), jstr(&c.msg))).collect();
+                    let causes: Vec<String> = err
+                        .causes
+                        .iter()
+                        .map(|c| format!("[{},{}]", jpos(&c.pos), jstr(&c.msg)))
+                        .collect();
                     out.push(format!(
                         "{{\"stage\":\"parse\",\"file\":{i},\"pos\":{},\"msg\":{},\"causes\":[{}],\"rendered\":{}}}",
                         jpos(&err.pos),
@@ -264,11 +284,25 @@ fn do_lex(src: String) -> String {
         Ok(toks) => {
             let v: Vec<String> = toks
                 .iter()
-                .map(|t| format!("[{},{},{},{},{},{},{}]", t.0, jstr(&t.1), jstr(&t.2), t.3, t.4, t.5, t.6))
+                .map(|t| {
+                    format!(
+                        "[{},{},{},{},{},{},{}]",
+                        t.0,
+                        jstr(&t.1),
+                        jstr(&t.2),
+                        t.3,
+                        t.4,
+                        t.5,
+                        t.6
+                    )
+                })
                 .collect();
             format!("\"k\":\"ok\",\"toks\":[{}]", v.join(","))
         }
-        Err((line, col, msg)) => format!("\"k\":\"err\",\"line\":{line},\"col\":{col},\"msg\":{}", jstr(&msg)),
+        Err((line, col, msg)) => format!(
+            "\"k\":\"err\",\"line\":{line},\"col\":{col},\"msg\":{}",
+            jstr(&msg)
+        ),
     })
 }
 
@@ -290,7 +324,11 @@ fn do_repeat(annotate: bool, k: usize, t: usize, pollute: Files, files: Files) -
             .stack_size(STACK)
             .spawn(move || {
                 std::panic::catch_unwind(move || {
-                    mamba::mamba_to_python(&f, &PathBuf::from(""), &mamba::PipelineArguments { annotate })
+                    mamba::mamba_to_python(
+                        &f,
+                        &PathBuf::from(""),
+                        &mamba::PipelineArguments { annotate },
+                    )
                 })
             })
             .expect("spawn");
@@ -331,7 +369,10 @@ fn do_repeat(annotate: bool, k: usize, t: usize, pollute: Files, files: Files) -
     let mut distinct: Vec<(String, String, u64, usize, Vec<String>)> = vec![]; // verdict, payload, hash, count, phases
     for (ph, v, p) in obs.iter() {
         let h = fnv(p);
-        if let Some(d) = distinct.iter_mut().find(|d| d.0 == *v && d.2 == h && d.1 == *p) {
+        if let Some(d) = distinct
+            .iter_mut()
+            .find(|d| d.0 == *v && d.2 == h && d.1 == *p)
+        {
             d.3 += 1;
             if !d.4.contains(ph) {
                 d.4.push(ph.clone());
@@ -352,7 +393,11 @@ fn do_repeat(annotate: bool, k: usize, t: usize, pollute: Files, files: Files) -
             )
         })
         .collect();
-    format!("{{\"k\":\"ok\",\"runs\":{},\"distinct\":[{}]}}", obs.len(), d.join(","))
+    format!(
+        "{{\"k\":\"ok\",\"runs\":{},\"distinct\":[{}]}}",
+        obs.len(),
+        d.join(",")
+    )
 }
 
 fn do_dir(annotate: bool, dir: String, src: Option<String>, target: Option<String>) -> String {
@@ -370,6 +415,42 @@ fn do_dir(annotate: bool, dir: String, src: Option<String>, target: Option<Strin
     })
 }
 
+fn handle(line: &str) -> String {
+    let f: Vec<&str> = line.split('\t').collect();
+    match f[0] {
+        "pipe" if f.len() >= 4 => do_pipe(
+            f[1] == "1",
+            f[2].parse().unwrap_or(0),
+            unhex(f[3]),
+            parse_files(&f[4..]),
+        ),
+        "stages" if f.len() >= 2 => do_stages(f[1] == "1", parse_files(&f[2..])),
+        "lex" if f.len() >= 2 => do_lex(unhex(f[1])),
+        "repeat" if f.len() >= 5 => {
+            // repeat annotate K T npollute (pollute files..) (files..)
+            let np: usize = f[4].parse().unwrap_or(0);
+            let pol = parse_files(&f[5..5 + 2 * np]);
+            let files = parse_files(&f[5 + 2 * np..]);
+            do_repeat(
+                f[1] == "1",
+                f[2].parse().unwrap_or(1),
+                f[3].parse().unwrap_or(0),
+                pol,
+                files,
+            )
+        }
+        "dir" if f.len() >= 5 => {
+            let opt = |s: &str| if s == "-" { None } else { Some(unhex(s)) };
+            do_dir(f[1] == "1", unhex(f[2]), opt(f[3]), opt(f[4]))
+        }
+        "lattice" if f.len() >= 2 => {
+            lattice::run(unhex(f[1]), f[2..].iter().map(|s| unhex(s)).collect())
+        }
+        "ping" => String::from("{\"k\":\"pong\"}"),
+        _ => String::from("{\"k\":\"badreq\"}"),
+    }
+}
+
 fn serve() {
     install_panic_hook();
     let stdin = std::io::stdin();
@@ -379,28 +460,7 @@ fn serve() {
             Ok(l) => l,
             Err(_) => break,
         };
-        let f: Vec<&str> = line.split('\t').collect();
-        let resp = match f[0] {
-            "pipe" if f.len() >= 4 => {
-                do_pipe(f[1] == "1", f[2].parse().unwrap_or(0), unhex(f[3]), parse_files(&f[4..]))
-            }
-            "stages" if f.len() >= 2 => do_stages(f[1] == "1", parse_files(&f[2..])),
-            "lex" if f.len() >= 2 => do_lex(unhex(f[1])),
-            "repeat" if f.len() >= 5 => {
-                // repeat annotate K T npollute (pollute files..) (files..)
-                let np: usize = f[4].parse().unwrap_or(0);
-                let pol = parse_files(&f[5..5 + 2 * np]);
-                let files = parse_files(&f[5 + 2 * np..]);
-                do_repeat(f[1] == "1", f[2].parse().unwrap_or(1), f[3].parse().unwrap_or(0), pol, files)
-            }
-            "dir" if f.len() >= 5 => {
-                let opt = |s: &str| if s == "-" { None } else { Some(unhex(s)) };
-                do_dir(f[1] == "1", unhex(f[2]), opt(f[3]), opt(f[4]))
-            }
-            "lattice" if f.len() >= 2 => lattice::run(unhex(f[1]), f[2..].iter().map(|s| unhex(s)).collect()),
-            "ping" => String::from("{\"k\":\"pong\"}"),
-            _ => String::from("{\"k\":\"badreq\"}"),
-        };
+        let resp = handle(&line);
         let mut o = stdout.lock();
         o.write_all(resp.as_bytes()).unwrap();
         o.write_all(b"\n").unwrap();
@@ -412,6 +472,12 @@ fn main() {
     let args: Vec<String> = std::env::args().collect();
     match args.get(1).map(|s| s.as_str()) {
         Some("serve") => serve(),
+        Some("oneshot") => {
+            // one request read from a file; used under gdb/valgrind for crash triage
+            install_panic_hook();
+            let line = std::fs::read_to_string(&args[2]).expect("request file");
+            println!("{}", handle(line.trim_end_matches('\n')));
+        }
         Some("core") => coregen::run(&args[2..]),
         _ => {
             eprintln!("usage: mvh serve | mvh core <depth> [random <n> <seed> <maxdepth>]");
